@@ -1,0 +1,43 @@
+//go:build verif
+
+package edwards448
+
+import "github.com/shogo82148/goat/internal/edwards448/field"
+
+// Hooks for the verification harness (build tag verif). Add-only; no behaviour change.
+
+// VerifCoords returns pointers to the projective coordinates of v.
+func (v *Point) VerifCoords() (x, y, z *field.Element) { return &v.x, &v.y, &v.z }
+
+// VerifSetCoords sets the projective coordinates of v verbatim.
+func (v *Point) VerifSetCoords(x, y, z *field.Element) *Point {
+	v.x, v.y, v.z = *x, *y, *z
+	return v
+}
+
+// VerifScMulAdd exposes scMulAdd: s = a*b + c mod l.
+func VerifScMulAdd(s, a, b, c *[56]byte) { scMulAdd(s, a, b, c) }
+
+// VerifScReduce exposes scReduce.
+func VerifScReduce(out *[56]byte, s *[114]byte) { scReduce(out, s) }
+
+// VerifIsReduced exposes isReduced on raw bytes.
+func VerifIsReduced(b [56]byte) bool { return isReduced(&Scalar{s: b}) }
+
+// VerifSetRaw sets the scalar bytes verbatim (no reduction).
+func (s *Scalar) VerifSetRaw(b [56]byte) *Scalar { s.s = b; return s }
+
+// VerifSignedRadix16 exposes signedRadix16.
+func (s *Scalar) VerifSignedRadix16() [112]int8 { return s.signedRadix16() }
+
+// VerifNonAdjacentForm exposes nonAdjacentForm.
+func (s *Scalar) VerifNonAdjacentForm(w uint) [448]int8 { return s.nonAdjacentForm(w) }
+
+// VerifLookupSelect builds the 8-entry lookup table of p and selects entry x (-8..8).
+func VerifLookupSelect(p *Point, x int8) *Point {
+	var t lookupTable
+	t.Init(p)
+	dest := new(Point)
+	t.SelectInto(dest, x)
+	return dest
+}
